@@ -1,4 +1,5 @@
 import IncanModel.Driver.C01
+import IncanModel.Driver.C02
 import IncanModel.Driver.C03
 import IncanModel.Driver.C04
 import IncanModel.Driver.C05
@@ -21,6 +22,7 @@ open Incan.Driver
 def dispatch (line : String) : String :=
   match line.trimAscii.toString.splitOn " " with
   | "c01" :: rest => handleC01 rest
+  | "c02" :: rest => handleC02 rest
   | "c03" :: rest => handleC03 rest
   | "c04" :: rest => handleC04 rest
   | "c05" :: rest => handleC05 rest
